@@ -281,6 +281,8 @@ theorem known_withProfiles {p : Proj} (h : Partition p) (P : List String) (k : S
 /-- every `depends_on` map has distinct keys (true of every Go map) -/
 def SvcWF (p : Proj) : Prop := ∀ kv ∈ p.services ++ p.disabled, (keys kv.2.deps).Nodup
 
+instance (p : Proj) : Decidable (SvcWF p) := by unfold SvcWF; exact inferInstance
+
 theorem svcWF_of_find {p : Proj} (w : SvcWF p) {k : String} {s : Svc} (h : find p k = some s) : (keys s.deps).Nodup := by
   rw [find_eq_lookup] at h
   exact w (k, s) (mem_of_lookup h)
